@@ -79,6 +79,9 @@ pub mod overlay_mask;
 pub mod paint;
 pub mod util;
 
+#[cfg(icy_engine_verif)]
+pub mod verif;
+
 use i18n_embed::{
     fluent::{fluent_language_loader, FluentLanguageLoader},
     DesktopLanguageRequester,
